@@ -31,6 +31,11 @@ def spec(tier):
                 pipes=[pipe("single", prio=3, at=0, durs=[1], mems=["mb"]), pipe("fork4", prio=2, at="ta", durs=["da", 2, 2, 2], mems=[1, "ma", 1, 1])])
     obs.append(CH(name="overbook_abandon_fork", harness="sched.overbook",
                   sym=dict(cpus=I(1, 3), ram=I(2, 8), ma=I(0, 9), mb=I(0, 9), ta=I(0, 3), da=I(1, 3)), fixed=dict(cfg=cfg2), timeout=1200))
+    # a fan-out pipeline whose own children fail while siblings are still queued (CPUs scarce)
+    cfg3 = dict(algo="overbook", pools=1, multi=False, oc=True, K=K,
+                pipes=[pipe("fork4", prio=3, at=0, durs=[1, "da", 2, 2], mems=[1, "ma", "ma", "mb"]), pipe("chain2", prio=2, at="ta", durs=[1, 1], mems=[1, "mb"])])
+    obs.append(CH(name="overbook_fan_failures", harness="sched.overbook",
+                  sym=dict(cpus=I(1, 3), ram=I(2, 8), ma=I(0, 9), mb=I(0, 9), ta=I(0, 3), da=I(1, 2)), fixed=dict(cfg=cfg3), timeout=1500))
     tsym = dict(cpus=I(1, 4), ram=I(1, 10), ma=I(0, 12), mb=I(0, 12), ta=I(0, 4))
     for w in ("fail", "ok", "abandoned"):
         obs.append(twin(f"overbook_{w}", "sched.overbook", tsym, dict(cfg=cfg, da=1), w))
